@@ -394,6 +394,15 @@ func (e *Engine) externKey(bc *BoundContract) (string, error) {
 		ms := e.Prog.MethodSets.MethodSet(rt)
 		for i := 0; i < ms.Len(); i++ {
 			if ms.At(i).Obj().Name() == fc.Name {
+				// a method promoted from an embedded field is called directly on that field in SSA form (no wrapper):
+				// the assumed contract binds to the declared method (its receiver is the embedded field's address)
+				if len(ms.At(i).Index()) > 1 {
+					if mf, ok := ms.At(i).Obj().(*types.Func); ok {
+						if fn := e.Prog.FuncValue(mf); fn != nil {
+							return fn.String(), nil
+						}
+					}
+				}
 				if fn := e.Prog.MethodValue(ms.At(i)); fn != nil {
 					return fn.String(), nil
 				}
